@@ -331,6 +331,15 @@ func (sc *SpecCtx) call(x *SExpr) Val {
 			kt = smKey(k)
 		}
 		return mkBool(sel(sc.arr("G|it|"+id+"|visited", "(Array Int Bool)"), kt))
+	case "removed": // removed(): ghost count of entries removed from maps / sync.Maps so far
+		e.ghostInit["G|removed"] = "(and (>= $ 0) (< $ 4611686018427387904))"
+		return Val{T: tInt, C: []string{sc.arr("G|removed", "Int")}}
+	case "visitedCount": // visitedCount(): number of keys the enclosing sync.Map.Range has handed to its callback so far
+		it, ok := sc.vars["$iter"]
+		if !ok || it.It == nil {
+			sc.fail("visitedCount outside a range invariant")
+		}
+		return Val{T: tInt, C: []string{sc.arr("G|it|"+it.It.ID+"|count", "Int")}}
 	case "smValuesAre": // smValuesAre(m, T): every value stored in sync.Map m is a non-nil T (for every key, of any type)
 		m := sc.eval(args[0])
 		t := sc.resolveType(sc.typeArg(args[1]))
